@@ -96,7 +96,58 @@ def load_known():
     for e in d.get("findings", []):
         if e.get("status") == "open" and e.get("property") in ("C10", "C02", "C18"):
             known[e["signature"]] = e
+    relocate(known)
     return known
+
+
+SITE = re.compile(r"^(C10:\w+:)(sdk/src/\S+):(\d+)$")
+
+
+def relocate(known):
+    """Site-keyed findings (`C10:<kind>:<file>:<line>`) carry `src`, the text of that source line when the finding was
+    registered. An unrelated edit higher up in the file moves the line: find where that statement is now (same file, same
+    text; several entries with the same text keep their order) and accept the moved signature as the same finding.
+    Another statement of the file, or the same statement after it was rewritten, is not covered."""
+    repo = os.environ.get("VERIF_REPO_DIR", "/repo")
+    groups = {}
+    for sig, e in list(known.items()):
+        m = SITE.match(sig)
+        if m and e.get("property") == "C10" and e.get("src"):
+            groups.setdefault((m.group(1), m.group(2), e["src"]), []).append((int(m.group(3)), e))
+    extra = []
+    for (pfx, f, src), ents in groups.items():
+        try:
+            lines = open(os.path.join(repo, f), errors="replace").read().split("\n")
+        except OSError:
+            continue
+        occ = [i + 1 for i, l in enumerate(lines) if l.strip() == src]
+        ents.sort(key=lambda x: x[0])
+        if len(occ) == len(ents):
+            pairs = list(zip(occ, ents))
+        else:
+            pairs = [(min(occ, key=lambda o: abs(o - ln)), (ln, e)) for ln, e in ents] if occ else []
+        for now, (ln, e) in pairs:
+            if now != ln:
+                sig = f"{pfx}{f}:{now}"
+                if sig not in known:
+                    known[sig] = e
+                    extra.append(sig)
+    # the in-target allow-list reads known_findings.json itself: hand it the moved signatures
+    if extra:
+        os.environ["VERIF_C10_ALLOW_EXTRA"] = ",".join(extra)
+        print("relocated known-finding sites: " + ", ".join(f"{x} (= {known[x]['signature']})" for x in extra))
+
+
+def registered_names(known_obs):
+    """Observations keyed by the registered signature (a moved site reports under the name it is listed with)."""
+    merged = {}
+    for sig, k in known_obs.items():
+        reg = k["entry"].get("signature", sig)
+        if not reg.startswith("C10:"):
+            reg = sig
+        m = merged.setdefault(reg, {"entry": k["entry"], "n": 0})
+        m["n"] += k["n"]
+    return merged
 
 
 def known_entry(known, sig):
@@ -572,6 +623,7 @@ def finish(d, t_start):
         e = known_entry(d.known, sig)
         k = known_obs.setdefault(sig, {"entry": e or {"what": "(entry vanished)"}, "n": 0})
         k["n"] += n
+    known_obs = registered_names(known_obs)
     for sig, k in sorted(known_obs.items()):
         print(f"KNOWN-FINDING: property=C10 {sig} — {k['entry'].get('what', '')[:400]} (observed {k['n']}x)")
     # samples + distinct count from the work corpora
@@ -677,6 +729,7 @@ def replay_one(d, path):
     procs = [d.replay_proc(target, b, [path], strict=True) for b in ("asan", "rel")]
     run_pool(procs, 2, d.on_replay_done, hard_timeout=lambda p: 600)
     known_obs, violations = judge(d)
+    known_obs = registered_names(known_obs)
     for sig, k in sorted(known_obs.items()):
         print(f"KNOWN-FINDING: property=C10 {sig} — {k['entry'].get('what', '')[:400]} (observed {k['n']}x)")
     for sig, crs in sorted(violations.items()):
